@@ -14,17 +14,76 @@ package main
 // (which live schemas share Bag / Checks array / Values with the result, and the result's slice header).
 
 import (
+	"flag"
 	"fmt"
 	"os"
+	"path/filepath"
 	"sort"
 	"strings"
 
 	"verifharness/hx"
+	"verifharness/opsgen"
 	"verifharness/storex"
 )
 
+// -gen DIR -repo TREE: run the translator (harness/opsgen) over TREE and write DIR/MethodOps.lean (only when its
+// content changes), then exit.  -dumpops: print the rows for humans.
+var (
+	genDir  = flag.String("gen", "", "translator mode: write MethodOps.lean into this directory and exit")
+	genRepo = flag.String("repo", "/repo", "library working tree read by the translator")
+	dumpOps = flag.Bool("dumpops", false, "translator mode: print the method table and exit")
+	objOnly = flag.Bool("objonly", false, "only the object-content histories (development)")
+	focus   = flag.String("focus", "", "comma-separated Type.Method list: add the aimed histories (that method x every sibling fan-out)")
+)
+
+// focused: the aimed histories for the methods whose table row changed class — the method on the fresh base, then for
+// EVERY other method s of the type: s as a sibling from the same base, the method again on the base (a second sibling
+// of its own first result), s on the first result, the method on s's result.
+func focused(b storex.Base, methods []string, want map[string]bool, o *hx.Out) {
+	for _, m := range methods {
+		probe := b.Mk()
+		if !want[storex.ShortType(probe)+"."+m] && !want["*."+m] {
+			continue
+		}
+		for _, s := range methods {
+			for variant := 0; variant < 2; variant++ {
+				h := storex.NewHist(b, true)
+				if !h.StepL(0, m, variant, o) {
+					continue
+				}
+				h.StepL(0, s, variant, o)
+				h.StepL(0, m, variant+1, o)
+				h.StepL(1, s, variant+1, o)
+				h.StepL(len(h.Live)-1, m, variant, o)
+				h.StepL(1, m, variant, o)
+				emit(h, o, "F")
+				o.Count("focused-histories")
+			}
+		}
+	}
+}
+
 func main() {
-	if err := run(hx.ParseFlags()); err != nil {
+	cfg := hx.ParseFlags()
+	if *genDir != "" || *dumpOps {
+		rows, err := opsgen.Rows(*genRepo)
+		if err != nil {
+			fmt.Fprintln(os.Stderr, "translator:", err)
+			os.Exit(4)
+		}
+		if *dumpOps {
+			fmt.Print(opsgen.Dump(rows))
+			return
+		}
+		changed, err := opsgen.WriteIfChanged(filepath.Join(*genDir, "MethodOps.lean"), opsgen.Lean(rows))
+		if err != nil {
+			fmt.Fprintln(os.Stderr, "translator:", err)
+			os.Exit(4)
+		}
+		fmt.Printf("rows: %d changed: %v\n", len(rows), changed)
+		return
+	}
+	if err := run(cfg); err != nil {
 		fmt.Fprintln(os.Stderr, "harness error:", err)
 		os.Exit(3)
 	}
@@ -35,7 +94,12 @@ func emit(h *storex.Hist, o *hx.Out, tag string) {
 		return
 	}
 	op := fmt.Sprintf("c08 %s %s | %s #%s %s", h.Base.Name, h.BaseHdr, strings.Join(h.Steps, " | "), tag, strings.Join(h.Names, " "))
-	o.Emit(op, "V:"+strings.Join(h.Verd, ";")+" S:"+strings.Join(h.Strct, ";"))
+	// T: the tie of every step to the regenerated method table; the implementation side has nothing to object to
+	tv := make([]string, len(h.Steps))
+	for i := range tv {
+		tv[i] = "ok"
+	}
+	o.Emit(op, "V:"+strings.Join(h.Verd, ";")+" S:"+strings.Join(h.Strct, ";")+" T:"+strings.Join(tv, ";"))
 	if h.DeepOnly > 0 {
 		o.Count("deep-hash-only-change")
 	}
@@ -53,12 +117,24 @@ func run(c hx.Config) error {
 		reps = 4
 	}
 	methodsSeen := map[string]bool{}
+	want := map[string]bool{}
+	for _, f := range strings.Split(*focus, ",") {
+		if f != "" {
+			want[f] = true
+		}
+	}
 	for _, b := range bases {
+		if *objOnly {
+			break
+		}
 		probe := b.Mk()
 		methods := storex.Methods(probe)
 		sort.Strings(methods)
 		for _, m := range methods {
 			methodsSeen[fmt.Sprintf("%T.%s", probe, m)] = true
+		}
+		if len(want) > 0 {
+			focused(b, methods, want, o)
 		}
 		for rep := 0; rep < reps; rep++ {
 			for _, m := range methods {
@@ -145,5 +221,11 @@ func run(c hx.Config) error {
 			}
 		}
 	}
-	return o.Close(map[string]any{"bases": len(bases), "type_methods": len(methodsSeen)})
+	// object derivations at the level of content (objhist.go)
+	nObj := 400
+	if c.Thorough() {
+		nObj = 3000
+	}
+	runObjHistories(rng, o, nObj)
+	return o.Close(map[string]any{"bases": len(bases), "type_methods": len(methodsSeen), "object_content_histories": nObj})
 }
